@@ -66,6 +66,12 @@ structure StakeEntry where
   weighted : Nat     -- WeightedAmount (computed when the stake was received)
   deriving DecidableEq, Repr
 
+/-- `getWeightedStakeAmount(amount, stakingTime)`, evaluated when the stake is received and stored as `WeightedAmount`:
+    `big.NewInt(9 + stakingTime/StakeTimeUnitSec)` (int64), `Mul amount`, `Div 10`. `unit` = constants.StakeTimeUnitSec
+    (a package variable; live value `Gen.StakeTimeUnitSec`). none = integer divide by zero. -/
+def stakeWeightedAmount (unit : Int) (amount : Nat) (stakingTime : Int) : Option Int :=
+  (div64 stakingTime unit).map (fun m => (wrap64 (9 + m) * (amount : Int)) / 10)
+
 /-- `getWeightedStake(info, startTime, endTime)` for epoch `e` -/
 def stakeW (c : Cfg) (e : Int) (x : StakeEntry) : Int :=
   weightedStake x.start x.revoke x.weighted (epochStart c e) (epochEnd c e)
